@@ -14,7 +14,8 @@ FLAVORS = ["asan"]
 ALPHA = "ab/*?."
 RULE = ("(1) every string over {a,b,/,*,?,.} up to length 4 (quick) / 5 (thorough) as a cgroup path under fs roots '/x/cg' and '/x/cg/': "
         "canonical relative/absolute form, getChild(c).getParent()==self for single components, == <=> equal absolute paths => equal "
-        "hashes over all pairs up to length 3; (2) hasDescendantWithPrefixMatching for ALL (path, pattern) pairs with both strings up to "
+        "hashes over all pairs up to length 3, and 3000 random derivation histories (hash / getChild / getParent / copy on one object, compared after every step "
+        "with a freshly constructed path: ==, hash, unordered_set lookup and size); (2) hasDescendantWithPrefixMatching for ALL (path, pattern) pairs with both strings up to "
         "length 3 (quick) / 4 (thorough) against an independent recursive matcher (equal / ancestor of a possible match / descendant "
         "of a match, `*` = one whole component); (3) resolveWildcard on random real directory trees (names sharing prefixes, dot-names, "
         "regular files that match, a sibling directory whose name extends the fs root) against a per-component fnmatch walk; "
@@ -66,6 +67,13 @@ def judge_paths(v, maxlen, seed=1):
         a = rng.choice(longs)
         b = rng.choice([a, a + "/", "/" + a, a.replace("/", "//"), rng.choice(longs), a[:-1]])
         qs.append({"q": "eq", "fs": "/x/cg", "a": a, "b": b})
+    # derivation histories on one object: hash / getChild / getParent / copy in random order
+    for _ in range(3000):
+        ops = []
+        for _k in range(rng.randint(3, 12)):
+            x = rng.random()
+            ops.append("h" if x < 0.35 else "p" if x < 0.6 else "copy" if x < 0.65 else "c:" + rng.choice(["a", "b", "ab", "b.", "*", "a/b", "a//b/", ""]))
+        qs.append({"q": "pathseq", "fs": rng.choice(["/x/cg", "/x/cg/"]), "p": rng.choice(small[:400] + longs[:50]), "ops": ops})
     # random longer (path, pattern) pairs for the hook relation
     for _ in range(4000):
         a = rng.choice(longs)
@@ -91,6 +99,26 @@ def judge_paths(v, maxlen, seed=1):
                 wpar = expect_abs(q["fs"], "/".join(P.split(q["p"])[:-1]))[0]
                 if a.get("parent") != wpar:
                     v.bad("parent", "", "CgroupPath(%r,%r).getParent()=%r expected %r" % (q["fs"], q["p"], a.get("parent"), wpar))
+        elif q["q"] == "pathseq":
+            comps = P.split(q["p"])
+            held = set()
+            for k, (op, st) in enumerate(zip(q["ops"], a["steps"])):
+                if op == "p":
+                    comps = comps[:-1]
+                elif op.startswith("c:"):
+                    comps = comps + P.split(op[2:])
+                elif op == "h":
+                    held.add(tuple(comps))
+                wabs = expect_abs(q["fs"], "/".join(comps))[0]
+                if st["abs"] != wabs or not st["eq"] or not st["hash_eq"] or not st["found"]:
+                    v.bad("derivation-history", "abs" if st["abs"] != wabs else "eq" if not st["eq"] else "hash" if not st["hash_eq"] else "container",
+                          "CgroupPath(%r,%r) after ops %s: abs=%r (expected %r) ==fresh:%s hash==fresh:%s set-lookup agrees:%s" % (
+                              q["fs"], q["p"], q["ops"][:k + 1], st["abs"], wabs, st["eq"], st["hash_eq"], st["found"]))
+                    break
+            else:
+                if a["distinct"] != len(held):
+                    v.bad("derivation-history", "set-size", "CgroupPath(%r,%r) ops %s: unordered_set holds %d keys, %d distinct paths were inserted" % (
+                        q["fs"], q["p"], q["ops"], a["distinct"], len(held)))
         elif q["q"] == "match":
             if a["m"] != P.hook_match(q["path"], q["pattern"]):
                 v.bad("hook-pattern-match", "long", "path %r pattern %r: hasDescendantWithPrefixMatching=%s, reference %s" % (q["path"], q["pattern"], a["m"], not a["m"]))
